@@ -262,6 +262,139 @@ func init() {
 	}
 
 	// C09: remaining-length boundaries (payload sizes across every width)
+	// C09: requests accepted while the client is down go out later, from the
+	// retransmission of the next connect: each still decodes to its request
+	// (a first transmission carries no DUP flag, whatever its position in
+	// the backlog)
+	e3tests["c09-backlog"] = func(e *e3, thorough bool) {
+		maxN := 3
+		if thorough {
+			maxN = 5
+		}
+		for n1 := 0; n1 <= maxN; n1++ {
+			for n2 := 0; n2 <= maxN; n2++ {
+				for _, volatile := range []bool{true, false} {
+					if n1+n2 == 0 || !e.mine() {
+						continue
+					}
+					e.evals.Add(1)
+					e.distinct[fmt.Sprintf("backlog/%d/%d/%t", n1, n2, volatile)] = true
+					cfg := baseConfig()
+					cfg.PauseTimeout = 0
+					conn := newLoopConn()
+					dials := 0
+					cfg.Dialer = func(ctx context.Context) (net.Conn, error) {
+						dials++
+						if dials == 1 {
+							return nil, errors.New("e3: first dial fails")
+						}
+						return conn, nil
+					}
+					var c *mqtt.Client
+					var err error
+					if volatile {
+						c, err = mqtt.VolatileSession("e3", &cfg)
+					} else {
+						c, err = mqtt.InitSession("e3", newPlainStore(), &cfg)
+					}
+					if err != nil {
+						e.violate("C09", "setup", "%v", err)
+						return
+					}
+					if _, _, err := c.ReadSlices(); err == nil {
+						e.violate("C09", "setup", "first ReadSlices succeeded although the dial failed")
+					}
+					type req struct {
+						qos     int
+						topic   string
+						payload []byte
+					}
+					var reqs []req
+					var levels []int
+					for a, b := n1, n2; a > 0 || b > 0; {
+						if a > 0 {
+							levels = append(levels, 1)
+							a--
+						}
+						if b > 0 {
+							levels = append(levels, 2)
+							b--
+						}
+					}
+					for i, lvl := range levels {
+						r := req{qos: lvl, topic: fmt.Sprintf("b/%d", i), payload: []byte(fmt.Sprintf("backlog-%d", i))}
+						var perr error
+						if r.qos == 1 {
+							_, perr = c.PublishAtLeastOnce(r.payload, r.topic)
+						} else {
+							_, perr = c.PublishExactlyOnce(r.payload, r.topic)
+						}
+						if perr != nil {
+							e.violate("C09", "backlog-refused", "publish %d (QoS %d) while down: %v", i, r.qos, perr)
+							continue
+						}
+						reqs = append(reqs, r)
+					}
+					done := make(chan struct{})
+					go func() {
+						defer close(done)
+						for {
+							if _, _, err := c.ReadSlices(); err != nil {
+								return
+							}
+						}
+					}()
+					select {
+					case <-c.Online():
+					case <-time.After(e3Stall / 4):
+						e.violate("C09", "backlog-never-online", "%d+%d publishes enqueued while down: no Online after the second dial", n1, n2)
+					}
+					pk, rest := conn.packets()
+					var pubs []*Packet
+					for _, p := range pk {
+						if p.Type == tPUBLISH {
+							pubs = append(pubs, p)
+						}
+					}
+					if len(rest) != 0 || len(pubs) != len(reqs) {
+						e.violate("C09", "backlog-count", "%d+%d publishes enqueued while down: %d PUBLISH packets on the wire before Online, rest %x", n1, n2, len(pubs), trunc(rest))
+					}
+					// per level in request order
+					for lvl := 1; lvl <= 2; lvl++ {
+						var want []req
+						var got []*Packet
+						for _, r := range reqs {
+							if r.qos == lvl {
+								want = append(want, r)
+							}
+						}
+						for _, p := range pubs {
+							if p.QoS == lvl {
+								got = append(got, p)
+							}
+						}
+						for i := range want {
+							if i >= len(got) {
+								break
+							}
+							g := got[i]
+							if g.Topic != want[i].topic || !bytes.Equal(g.Body, want[i].payload) || g.Retain || g.Raw[0]&8 != 0 {
+								e.violate("C09", "backlog-decodes-differently", "publish %d of level %d enqueued while down (topic %q, %d bytes, first transmission) went out as %s (first byte %#x)", i, lvl, want[i].topic, len(want[i].payload), g, g.Raw[0])
+							}
+						}
+					}
+					e.sample("%d+%d enqueued while down (volatile %t) -> %d PUBLISH", n1, n2, volatile, len(pubs))
+					go c.Close()
+					select {
+					case <-done:
+					case <-time.After(e3Stall / 4):
+						e.violate("C09", "close-never-returns#e3", "Close did not end the read routine")
+					}
+				}
+			}
+		}
+	}
+
 	e3tests["c09-sizes"] = func(e *e3, thorough bool) {
 		cfg := baseConfig()
 		cfg.PauseTimeout = 0
